@@ -216,9 +216,17 @@ func (h *fasthttpHandler) readReqMsg(ctx *fasthttp.RequestCtx) *dnsmsg.Msg {
 			return nil
 		}
 
+		body := ctx.Request.BodyStream()
+		if body == nil { // request without a body, e.g. no Content-Length and no Transfer-Encoding header
+			h.logger.Warn().
+				Object("request", (*fasthttpReqLoggerObj)(ctx)).
+				Msg("missing request body")
+			ctx.SetStatusCode(fasthttp.StatusBadRequest)
+			return nil
+		}
 		buf := bufPool.Get()
 		defer bufPool.Release(buf)
-		_, err := buf.ReadFrom(io.LimitReader(ctx.Request.BodyStream(), 65535))
+		_, err := buf.ReadFrom(io.LimitReader(body, 65535))
 		if err != nil {
 			h.logger.Warn().
 				Object("request", (*fasthttpReqLoggerObj)(ctx)).
